@@ -950,6 +950,29 @@ def rule_halo_rebuild(w):
         must(fn, is_call_on("_halo_wrapper", "build"), "_halo_wrapper.build(...)", short(fn) + "/_halo_wrapper", keys=("this._halo_wrapper",))
     for fn in w.find(r"Intern::PatchHaloBuild<.*>::build$"):
         must(fn, is_call_on("_indices", "clear"), "_indices.clear()", short(fn) + "/_indices.clear", keys=("this._indices",))
+    # the mesh-part splitter: one PatchMeshPartSplitter per extract_patch step, build() per base part / halo / patch
+    reused_sp = False
+    for fn in w.find(r"Geometry::RootMeshNode<.*>::extract_patch$"):
+        fk = w.fk(fn)
+        cons = [e for e in fk.events if e.kind == "call" and "PatchMeshPartSplitter<" in (e.callee or "") and (e.callee or "").endswith("PatchMeshPartSplitter")]
+        builds = [e for e in fk.events if e.kind == "call" and e.name == "build" and "PatchMeshPartSplitter<" in (e.callee or "")]
+        for b in builds:
+            for c in cons:
+                if len([f for f in b.frames if f.kind == "loop"]) > len([f for f in c.frames if f.kind == "loop"]):
+                    reused_sp = True
+    if reused_sp:
+        for fn in w.find(r"Geometry::PatchMeshPartSplitter<.*>::build$"):
+            must(fn, is_call_on("_part_holder", "build"), "_part_holder.build(...)", short(fn) + "/_part_holder", keys=("this._part_holder",))
+        for fn in w.find(r"Geometry::PatchPartMap::build$"):
+            fk = w.fk(fn)
+            # result state of build(): the member containers it fills
+            filled = sorted({e.obj for e in fk.events if e.kind == "call" and e.name in ("push_back", "emplace_back", "emplace", "insert", "insert_or_assign", "try_emplace")
+                             and (e.obj or "").startswith("this.")})
+            if not filled:
+                ck.incomplete("E7.halo-rebuild", "%s: no member container filled by build()" % short(fn))
+            for key in filled:
+                m = key.split(".", 1)[1]
+                must(fn, is_call_on(m, "clear"), "%s.clear()" % m, "%s/%s.clear" % (short(fn), m), keys=(key,))
 
 
 # -------------------------------------------------------------------------------------------------
@@ -1096,6 +1119,199 @@ def _conj(c):
     return [c] if c is not None else []
 
 
+# -------------------------------------------------------------------------------------------------
+# re-keying the halo map
+# -------------------------------------------------------------------------------------------------
+
+def rule_rekey(w):
+    """rename_halos: the renamed entries go into a container other than the one being read, or the insertion result is checked"""
+    ck = w.ck
+    fns = w.find(r"Geometry::RootMeshNode<.*>::rename_halos$")
+    if not fns:
+        ck.incomplete("E7.rekey-fresh", "RootMeshNode::rename_halos not instantiated")
+    for fn in fns:
+        fk = w.fk(fn)
+        name = short(fn)
+        INS = ("emplace", "insert", "try_emplace", "insert_or_assign", "emplace_hint")
+        ins = [e for e in fk.events if e.kind == "call" and e.name in INS and (e.callee or "").startswith("std::map")]
+        ext = [e for e in fk.events if e.kind == "call" and e.name == "extract" and (e.callee or "").startswith("std::map")]
+        H = "this._halos"
+        if fk.unknown or not ins:
+            why = elsewhere(fk, (H,), names=C12NAMES)
+            ck.incomplete("E7.rekey-fresh", "%s: %s" % (name, "; ".join(x[0] for x in fk.unknown) or "no insertion into a map found (%s)" % (why or "operator[] / other idiom")))
+            continue
+        problems = []
+        par = {}
+        st = [fn.body]
+        while st:
+            x = st.pop()
+            for c in children(x):
+                par[id(c)] = x
+                st.append(c)
+        for e in ins:
+            if e.obj != H:
+                continue
+            # insertion into the container that is still being read: a new key may equal a not yet renamed old key
+            p0 = par.get(id(e.node))
+            used = p0 is not None and p0.get("k") not in ("Block", "For", "While", "If", "ForRange", "Case", "Default", "Switch")
+            if used:
+                ck.incomplete("E7.rekey-fresh", "%s: in-place insertion whose result is used (collision handling not modelled)" % name)
+                problems = None
+                break
+            problems.append("entries are re-inserted into _halos itself by %s() (line %s) and the result is dropped: when a new rank equals the old rank of a halo that is not yet "
+                            "renamed (e.g. swapping ranks 1 <-> 2) the insertion %s, i.e. a halo mesh part is lost" % (
+                                e.name, e.node.get("l"), "fails and the extracted node is destroyed" if e.name in ("insert", "emplace", "try_emplace", "emplace_hint") else "overwrites that halo"))
+        if problems is None:
+            continue
+        if not problems:
+            fresh = sorted({e.obj for e in ins if e.obj != H})
+            # every entry of the old map reaches the fresh map: an insertion on every path of the loop body, then _halos = fresh
+            loops = [f for e in ins for f in e.frames if f.kind == "loop"]
+            assigned = [e for e in fk.events if e.kind in ("obj-assign", "alloc") and (e.get("key") == H or (e.get("arr") is not None and e.arr.key == H))]
+            src_ok = any(f.loop is not None and f.loop.kind in ("foreach", "adj") and H in (f.loop.canon or "") for f in loops)
+            branches = {}
+            for e in ins:
+                ifs = [f for f in e.frames if f.kind == "if"]
+                branches.setdefault(id(ifs[-1].node) if ifs else None, set()).add(ifs[-1].branch if ifs else "all")
+            incomplete_br = [k for k, v in branches.items() if k is not None and v != {"then", "else"}]
+            if len(fresh) != 1 or not src_ok or not assigned:
+                ck.incomplete("E7.rekey-fresh", "%s: not of the form `for(v : _halos) fresh.emplace(new key, move(v.second)); _halos = move(fresh)`" % name)
+                continue
+            if incomplete_br:
+                problems.append("some halos are not carried over into %s (insertion only in one branch)" % fresh[0])
+        ck.ob("E7.rekey-fresh", name, not problems, "; ".join(problems) if problems else
+              "all halos are moved into the fresh map (every branch inserts) which then replaces _halos: new keys cannot collide with keys still to be renamed", fn.file, fn.line)
+
+
+# -------------------------------------------------------------------------------------------------
+# PartiIterative: the retry flag of the centre search
+# -------------------------------------------------------------------------------------------------
+
+def rule_parti_retry(w):
+    ck = w.ck
+    fns = [fn for fn in w.find(r"Intern::PartiIterativeIndividual<.*>::PartiIterativeIndividual$") if fn.param("num_patches")]
+    if not fns:
+        ck.incomplete("E7.parti-retry", "PartiIterativeIndividual constructor not instantiated")
+    obs = {}
+    for fn in fns:
+        fk = w.fk(fn)
+        # while(flag) loops whose flag is a local bool
+        found = 0
+        for e in fk.events:
+            if e.kind != "while":
+                continue
+            c = strip(e.node.get("c"))
+            if c is None or c.get("k") != "Ref" or c.get("dk") != "local":
+                continue
+            d = c["d"]
+            muts = [x for x in fk.events if x.kind == "scalar" and x.var == d and x.frames and x.frames[0].node is e.node]
+            if not muts:
+                continue
+            found += 1
+            key = "PartiIterativeIndividual::PartiIterativeIndividual(mesh,rng,num_patches)/retry-flag"
+            can_set = [x for x in muts if x.op in ("|=", "^=", "+=") or (x.op == "=" and not (strip(x.val).get("k") == "Bool" and not strip(x.val).get("v")))]
+            dead = [x for x in muts if x.op == "&="]
+            first = min(muts, key=lambda x: x.seq)
+            if can_set:
+                obs.setdefault(key, []).append((True, "the retry flag %s can be set inside the search loop" % c["n"], fn.file, e.node.get("l")))
+            elif dead and first.op == "=" and len(first.frames) == 1:
+                obs.setdefault(key, []).append((False, "the loop `while(%s)` resets %s = false at the top of its body and afterwards only combines it with `&=` (line %s): the flag can never "
+                                                "become true, so the test for unreached cells (%s) is dead and the search is never repeated; cells beyond the exploration threshold of every "
+                                                "centre keep an uninitialised patch number" % (c["n"], c["n"], dead[0].node.get("l"), render(dead[0].val)[:80]), fn.file, dead[0].node.get("l")))
+            else:
+                obs.setdefault(key, []).append((None, "assignments to the loop flag %s not understood" % c["n"], fn.file, e.node.get("l")))
+        if not found:
+            ck.incomplete("E7.parti-retry", "%s: no flag-controlled search loop found" % short(fn))
+    for key, lst in sorted(obs.items()):
+        bad = [x for x in lst if x[0] is False]
+        unk = [x for x in lst if x[0] is None]
+        if unk and not bad:
+            ck.incomplete("E7.parti-retry", "%s: %s" % (key, unk[0][1]))
+            continue
+        pick = bad[0] if bad else lst[0]
+        ck.ob("E7.parti-retry", key, not bad, pick[1], pick[2], pick[3])
+
+
+# -------------------------------------------------------------------------------------------------
+# possibly-null mesh parts handed to add_halo / add_patch, which assert a non-null part
+# -------------------------------------------------------------------------------------------------
+
+def _nonnull_params(w, callee):
+    """parameters of callee that its entry assertions require to be non-null"""
+    fk = w.fk(callee)
+    first_other = min([e.seq for e in fk.events if e.kind not in ("assert", "call")] or [10 ** 9])
+    out = set()
+    for e in fk.events:
+        if e.kind == "assert" and not e.frames:
+            c = strip(e.cond)
+            cand = None
+            if c.get("k") == "Bin" and c.get("op") == "!=":
+                sides = [strip(c["lhs"]), strip(c["rhs"])]
+                if any(x.get("k") == "Null" for x in sides):
+                    cand = [x for x in sides if x.get("k") != "Null"]
+            else:
+                cand = [c]
+            for x in cand or []:
+                for y in walk(x):
+                    if y.get("k") == "Ref" and y.get("dk") == "param":
+                        out.add(y["n"])
+    return out
+
+
+def rule_nonnull_arg(w):
+    ck = w.ck
+    fns = [fn for fn in w.find(r"Geometry::RootMeshNode<.*>::extract_patch$")]
+    obs = {}
+    n = 0
+    for fn in fns:
+        fk = w.fk(fn)
+        name = re.sub(r"<.*?>::", "::", short(fn).split("(")[0], count=1) + "(" + ",".join(p["n"] for p in fn.params) + ")"
+        for e in fk.events:
+            if e.kind != "call" or e.name not in ("add_halo", "add_patch", "add_mesh_part"):
+                continue
+            callee = w.findex.lookup(e.node)
+            if callee is None:
+                continue
+            req = _nonnull_params(w, callee)
+            pn = e.node.get("pn", [])
+            for i, a in enumerate(e.node.get("a", [])):
+                if i >= len(pn) or pn[i] not in req:
+                    continue
+                a2 = strip(a)
+                for _ in range(3):
+                    if a2.get("k") in ("Call", "Construct", "TempObj") and len(a2.get("a", [])) == 1:
+                        a2 = strip(a2["a"][0])
+                if a2.get("k") != "Ref" or a2.get("dk") != "local":
+                    continue
+                v = fk.locals.get(a2["d"])
+                if v is None or v.get("init") is not None and strip(v["init"]).get("a"):
+                    continue          # initialised with a value
+                n += 1
+                key = "%s/%s(%s=%s)" % (name, e.name, pn[i], a2["n"])
+                asg = [x for x in fk.events if x.kind == "obj-assign" and x.key == a2["n"] and x.seq < e.seq]
+                uncond = [x for x in asg if frames_key(x.frames) == frames_key(e.frames)]
+                cond = [x for x in asg if len(x.frames) > len(e.frames) and frames_key(x.frames[:len(e.frames)]) == frames_key(e.frames)]
+                if uncond:
+                    obs.setdefault(key, []).append((True, "%s is assigned on every path before it is handed to %s" % (a2["n"], e.name), fn.file, e.node.get("l")))
+                elif cond and all(any(f.kind == "if" for f in x.frames[len(e.frames):]) for x in cond):
+                    c0 = [f for f in cond[0].frames[len(e.frames):] if f.kind == "if"][0]
+                    obs.setdefault(key, []).append((False, "%s is default-constructed (null) and only assigned under `%s`; on the other path the null pointer is passed to %s(), whose entry "
+                                                    "assertion on `%s` aborts (a base %s that does not intersect the patch)" % (
+                                                        a2["n"], render(c0.node.get("c"))[:70], e.name, pn[i], "halo" if e.name == "add_halo" else "patch mesh part"), fn.file, e.node.get("l")))
+                else:
+                    obs.setdefault(key, []).append((None, "definition of %s before %s() not understood" % (a2["n"], e.name), fn.file, e.node.get("l")))
+    if n == 0:
+        ck.incomplete("E7.nonnull-arg", "no call of add_halo/add_patch with a local mesh part in extract_patch found")
+    for key, lst in sorted(obs.items()):
+        bad = [x for x in lst if x[0] is False]
+        unk = [x for x in lst if x[0] is None]
+        if unk and not bad:
+            ck.incomplete("E7.nonnull-arg", "%s: %s" % (key, unk[0][1]))
+            continue
+        pick = bad[0] if bad else lst[0]
+        ck.ob("E7.nonnull-arg", key, not bad, pick[1], pick[2], pick[3])
+
+
 def run(tier):
     ck = Check("C12", tier)
     ck.rule("E1.member-binding", "the halo builders are wired to the right sets: PatchHaloBuild<Shape,codim> binds the patch part's target set of the face dimension and the "
@@ -1123,12 +1339,19 @@ def run(tier):
             "matches of the longer list", 2)
     ck.rule("E7.halo-rebuild", "extract_patch reuses one PatchHaloFactory for all neighbour ranks, so every path through PatchHaloFactory::build, every "
             "PatchHaloBuildWrapper<.,d>::build and PatchHaloBuild::build must rebuild (clear) the list of its dimension and of the lower dimensions "
-            "(an early return leaves the previous neighbour's entities in the halo)", 9)
+            "(an early return leaves the previous neighbour's entities in the halo); likewise the reused PatchMeshPartSplitter: PatchMeshPartSplitter::build and "
+            "PatchPartMap::build clear every member container they fill on every path", 12)
     ck.rule("E4.wrapper-all-levels", "recursion-scheme wrappers over the entity dimensions (PatchInvMapWrapper, PatchHaloBuildWrapper, PatchPartMapHolder, PatchIndexMapping*): "
             "in every function that recurses to the lower level, the lower-level call and every state-changing call of the own level lie on EVERY path (CFG must-pass); "
             "a call in the short-circuited operand of ||/&& or behind an early return leaves that dimension's lists unbuilt", 40)
     ck.rule("E7.halo-refined", "RootMeshNode::refine_unique hands every existing halo / patch mesh part to StandardRefinery<MeshPart>; a copy instead of a refinement is only "
             "admissible under get_num_entities(1) == 0 (no edges), for every shape dimension the driver instantiates (2D and 3D)", 8)
+    ck.rule("E7.rekey-fresh", "RootMeshNode::rename_halos moves every halo into a fresh map that then replaces _halos; re-inserting into _halos itself with a dropped "
+            "insertion result loses a halo whenever a new rank equals the old rank of a halo not yet renamed (rank swaps)", 1)
+    ck.rule("E7.parti-retry", "PartiIterative's centre search repeats when a cell was not reached: the loop flag can become true inside the loop "
+            "(a flag reset to false and then only `&=`-ed is dead: unreached cells keep an uninitialised patch number)", 1)
+    ck.rule("E7.nonnull-arg", "extract_patch hands a split mesh part to add_halo/add_patch (which assert a non-null part) only if it is assigned on every path "
+            "(a part that does not intersect the patch leaves the local null)", 2)
     ck.rule("E12.bcast-agree", "PartiIterative::build_elems_at_rank: sending and receiving branch broadcast identical counts into sufficiently long arrays and build graphs of identical dimensions", 1)
     ck.rule("E7.parti-precond", "PartiIterative checks num_patches > 0 and num_elems >= num_patches before drawing distinct centre cells", 2)
     w = World(ck, tier)
@@ -1142,6 +1365,9 @@ def run(tier):
     rule_halo_rebuild(w)
     rule_wrapper_levels(w)
     rule_halo_refined(w)
+    rule_rekey(w)
+    rule_parti_retry(w)
+    rule_nonnull_arg(w)
     ck.assume("TargetSet: entries are indices of the parent (base) mesh entities, one per part entity; IndexSet(i,j): i < get_num_entities(), value < get_index_bound(); "
               "Graph accessor contracts as in C19")
     ck.assume("documented parameter roles: tsh = target set holder of the patch mesh part (into the base mesh), ish = index set holder of the base mesh, ranks_at_elem = one node per "
